@@ -17,6 +17,7 @@ pub mod sig;
 pub mod w_channel;
 pub mod w_close;
 pub mod w_halflock;
+pub mod w_instance;
 pub mod w_iter;
 pub mod w_reg;
 
